@@ -48,6 +48,7 @@ def shards(tier):
         else:
             out.append(("value", r[0], r[1], tier, 0, 1))
     out.append(("inverse", tier))
+    out.append(("declare",))
     return out
 
 
@@ -187,6 +188,70 @@ def run_shard(shard):
             res["evaluations"] += 1
         sample(res, {"layout_rows": len(rows), "banks": list(M.BANKS)})
         return res
+    if k == "declare":
+        # the layout rules the library enforces on EVERY declaration (its documented extension point): all access-type
+        # tuples of 1..3 locations x bank kinds (lock byte / latch / neither / both), declared in a bank of this shard's own
+        # process; then every overlapping second declaration
+        import itertools
+        from dali.memory.location import (MemoryBank, MemoryLocation, MemoryType, NumericValue, LockingNotSupported,
+                                          MemoryLocationOverlap)
+        types = list(MemoryType)
+        n = 0
+        for has_lock, has_latch in ((False, False), (False, True), (True, False), (True, True)):
+            for L in (1, 2, 3):
+                for tt in itertools.product(types, repeat=L):
+                    for order in ("ascending", "descending"):
+                        bank = MemoryBank(40 + n % 150, 0x30, has_lock=has_lock, has_latch=has_latch)
+                        addrs = list(range(0x10, 0x10 + L))
+                        if order == "descending":
+                            if L == 1:
+                                continue
+                            addrs.reverse()
+                        locs = tuple(MemoryLocation(a, type_=t) for a, t in zip(addrs, tt))
+                        case = {"t": "declare", "types": [t.name for t in tt], "lock": has_lock, "latch": has_latch, "order": order}
+                        n += 1
+                        lockable = any(t is MemoryType.NVM_RW_L for t in tt)
+                        try:
+                            cls = type("UserValue", (NumericValue,), {"bank": bank, "locations": locs})
+                            out = "accepted"
+                        except LockingNotSupported:
+                            out = "LockingNotSupported"
+                        except Exception as e:
+                            out = type(e).__name__
+                        want = "LockingNotSupported" if lockable and not has_lock else "accepted"
+                        if out != want:
+                            add_violation(res, f"C11:declare:{'lockable-accepted-without-lock-byte' if out == 'accepted' else 'refused'}",
+                                          f"declaring a value with access types {[t.name for t in tt]} ({order}) in a bank with has_lock={has_lock}, "
+                                          f"has_latch={has_latch}: {out}, expected {want}", case)
+                        for a, e in bank.locations.items():
+                            if e is not None and e.memory_location.type_ is MemoryType.NVM_RW_L and not has_lock:
+                                add_violation(res, "C11:declare:lockable-location-registered-without-lock-byte",
+                                              f"after declaring {[t.name for t in tt]} ({order}) the bank without lock byte has a lockable location at {a:#x}", case)
+                                break
+                        res["distinct"].add(("declare", out, L))
+        # overlap: a second value touching any location of the first is refused, a disjoint one accepted
+        for first in ((0x10, 0x11, 0x12), (0x12, 0x11, 0x10), (0x20,)):
+            for second in itertools.chain(((a,) for a in range(0x0E, 0x16)), ((a, a + 1) for a in range(0x0D, 0x15)), ((a + 1, a) for a in range(0x0D, 0x15)),
+                                          ((0x1F, 0x20), (0x20, 0x21), (0x21, 0x22), (0x02,), (0x00,), (0x03,))):
+                bank = MemoryBank(200, 0x30, has_lock=True)
+                type("First", (NumericValue,), {"bank": bank, "locations": tuple(MemoryLocation(a, type_=MemoryType.NVM_RW) for a in first)})
+                case = {"t": "declare", "first": list(first), "second": list(second)}
+                n += 1
+                try:
+                    type("Second", (NumericValue,), {"bank": bank, "locations": tuple(MemoryLocation(a, type_=MemoryType.NVM_RW) for a in second)})
+                    out = "accepted"
+                except MemoryLocationOverlap:
+                    out = "MemoryLocationOverlap"
+                except Exception as e:
+                    out = type(e).__name__
+                header = {0x00, 0x02} & set(second)          # last-address and lock byte are declared by the bank itself
+                want = "MemoryLocationOverlap" if (set(first) | header) & set(second) else "accepted"
+                if out != want:
+                    add_violation(res, "C11:declare:overlap", f"value at {[hex(a) for a in first]} declared, then one at {[hex(a) for a in second]}: {out}, expected {want}", case)
+                res["distinct"].add(("overlap", out))
+        res["evaluations"] += n
+        sample(res, {"declarations": n, "access_types": [t.name for t in types]})
+        return res
     if k == "value":
         _, bname, name, tier, part, parts = shard
         row = rows[(bname, name)]
@@ -308,4 +373,6 @@ def replay(case):
         return res["violations"]
     if t == "layout":
         return run_shard(("layout",))["violations"]
+    if t == "declare":
+        return run_shard(("declare",))["violations"]
     return run_shard(("inverse", "quick"))["violations"]
